@@ -428,6 +428,16 @@ def oracle_name_batch(items):
     from lib import ling
     out = []
     for name, code in items:
+        if code.startswith('!ambiguous'):
+            try:
+                l = ling.get_language_for_name(name)
+            except LookupError:
+                continue
+            except Exception as e:  # noqa
+                out.append(('name', name, 'get_language_for_name raised ' + type(e).__name__, None))
+                continue
+            out.append(('name', name, 'a list naming two different languages (%s) is resolved to %s: a guess, no name identifies the language' % (code[11:], l), None))
+            continue
         try:
             l = ling.get_language_for_name(name)
         except LookupError:
@@ -675,6 +685,15 @@ def name_cases(ctx):
         if rng.random() < 0.2:
             s = accent(s, rng.randrange(3))
         out.append((s, None, 'combined'))
+    # a comma list naming two DIFFERENT languages identifies none: the tool must not offer a correction
+    rawlower = {n.lower() for n, _ in raw}
+    plain = [(n, c) for n, c in raw if ',' not in n and ';' not in n]
+    for _ in range(600 if ctx.quick() else 6000):
+        (a, ca), (b, cb) = rng.choice(plain), rng.choice(plain)
+        if ca == cb or (b + ' ' + a).lower() in rawlower or (a + ' ' + b).lower() in rawlower:
+            continue
+        sep = rng.choice([', ', ',', ' , '])
+        out.append((a + sep + b, '!ambiguous %s=%s %s=%s' % (a, ca, b, cb), 'two-languages'))
     for s in ['', ' ', ';', ',', ';,', 'x', 'pl', 'Polish;', ';Polish', 'Polish,', ',Polish', 'Polish, Polish', 'Polish; German', 'Unknown; German',
               'German, Polish', 'English, Old', 'Old, English', 'English, Old (ca.450-1100)', 'Norwegian, Bokmål', 'Bokmål, Norwegian',
               'Norwegian Bokmål', 'Greek, Modern (1453-)', 'á', '́Polish', 'Polish́', 'Pólish', 'Pol ish', 'Pölish',
